@@ -629,6 +629,16 @@ class Gen:
         kinds = [k for k in self.DEV_DECL if self.chance(0.45)]
         for k in kinds:
             decl = f"{k} = {self.DEV_DECL[k](self)}"
+            m_ = _re.search(r"\((\d+(?:, \d+)*)", decl)
+            if m_ and k not in ("lcd", "lci") and self.chance(0.25):
+                # pins given by named constants (never re-assigned) instead of literals
+                self.feat("device_pins_by_name")
+                names_ = []
+                for j_, num in enumerate(m_.group(1).split(", ")):
+                    nm_ = f"PIN_{k.upper()}{j_}"
+                    lines.append(("s", f"{nm_} = {num}"))
+                    names_.append(nm_)
+                decl = decl[:m_.start(1)] + ", ".join(names_) + decl[m_.end(1):]
             self.devs[k] = k
             if k in self.HOISTABLE and self.chance(self.p.loop_decl):
                 self.loop_devs.append(decl)
@@ -950,7 +960,7 @@ def count_nodes(nodes):
 
 import re as _re
 
-_DECL = _re.compile(r"^(from |mon = |led = |[iwfsbclmnr]\d = |[nr]\d, [nr]\d = |(?:" + "|".join(KEYWORDISH) + r") = )")
+_DECL = _re.compile(r"^(from |mon = |led = |PIN_[A-Z]+\d = |[iwfsbclmnr]\d = |[nr]\d, [nr]\d = |(?:" + "|".join(KEYWORDISH) + r") = )")
 
 
 def is_decl(node):
